@@ -498,7 +498,7 @@ func runC11(w *c11World) error {
 						var m message.Message = dbg
 						var bigMsg *common.MessageEncapsulatedData
 						if o.unenc {
-							m = &message.MessageRaw{ID: 999999, Payload: []byte{byte(p), byte(i), 3}}
+							m = &message.MessageRaw{ID: []uint32{999999, 0x0100FE, 0x020083}[i%3], Payload: []byte{byte(p), byte(i), 3}} // unknown ids, two of them sharing the low byte of DEBUG (254) / ENCAPSULATED_DATA (131)
 						} else if o.big {
 							bigMsg = &common.MessageEncapsulatedData{Seqnr: uint16(i)}
 							bigMsg.Data[0], bigMsg.Data[252] = byte(p), 0xEE
